@@ -270,19 +270,23 @@ func (p *CodeBuilder) startFuncBody(fn *Func, src []ast.Node, old *funcBodyCtx) 
 	p.startBlockStmt(fn, src, "func "+fn.Name(), &old.codeBlockCtx)
 	scope := p.current.scope
 	sig := fn.Type().(*types.Signature)
-	insertParams(scope, sig.Params())
-	insertParams(scope, sig.Results())
+	insertParams(p.pkg, scope, sig.Params())
+	insertParams(p.pkg, scope, sig.Results())
 	if recv := sig.Recv(); recv != nil {
 		scope.Insert(recv)
+		if name := recv.Name(); name != "" && name != "_" {
+			p.pkg.useName(name)
+		}
 	}
 	return p
 }
 
-func insertParams(scope *types.Scope, params *types.Tuple) {
+func insertParams(pkg *Package, scope *types.Scope, params *types.Tuple) {
 	for i, n := 0, params.Len(); i < n; i++ {
 		v := params.At(i)
 		if name := v.Name(); name != "" && name != "_" {
 			scope.Insert(v)
+			pkg.useName(name)
 		}
 	}
 }
